@@ -241,7 +241,12 @@ void BinaryFileReader::read_faces(Decoder &reader, const TopoChunkHeader &header
                                    valence,
                                    read_heh);
         if (!success) break;
-        mesh_->add_face(std::move(halfedges), options_.topology_check);
+        auto fh = mesh_->add_face(std::move(halfedges), options_.topology_check);
+        if (!fh.is_valid()) {
+            state_ = ReadState::ErrorInvalidFile;
+            error_msg_ = "TOPO chunk: face " + std::to_string(header.span.first + i) + " was rejected by the mesh";
+            return;
+        }
     };
 
     if (state_ == ReadState::ReadingChunks) {
@@ -288,7 +293,12 @@ void BinaryFileReader::read_cells(Decoder &reader, const TopoChunkHeader &header
                                    valence,
                                    read_hfh);
         if (!success) break;
-        mesh_->add_cell(std::move(halffaces), options_.topology_check);
+        auto ch = mesh_->add_cell(std::move(halffaces), options_.topology_check);
+        if (!ch.is_valid()) {
+            state_ = ReadState::ErrorInvalidFile;
+            error_msg_ = "TOPO chunk: cell " + std::to_string(header.span.first + i) + " was rejected by the mesh";
+            return;
+        }
     };
 
     if (state_ == ReadState::ReadingChunks) {
